@@ -386,6 +386,11 @@ class BuildFileImpl {
 
     // Iterate over each of the sections in the mapping.
     auto it = mapping->begin();
+    if (it == mapping->end()) {
+      // The mapping is empty, there is no key to examine.
+      error(node, "expected initial mapping key 'client'");
+      return false;
+    }
     if (!nodeIsScalarString(it->getKey(), "client")) {
       error(it->getKey(), "expected initial mapping key 'client'");
       return false;
